@@ -204,6 +204,11 @@ PROPS = {    "C01": {
                        "bounds": {"dags": 1, "start_schedules": "0..2", "stop_schedules": "0..1", "restart_schedules": "0..1", "ticks": 1, "D": 0,
                                   "latest_run": "none | earlier minute | previous minute :59 | same minute :00 | same minute :59 | later minute", "status": "all 5"}},
              "thorough": {"entry": "VerifHarness_C09_tick1", "flags": ["-unwind", "32", "-delays", "1"], "sample_paths": 2, "bounds": {"dags": 1, "D": 1}}},
+            {"name": "C09.ticks", "pkg": "./internal/scheduler", "replay": "R1",
+             "must_assert": ["C09.ticks/minutes-are-consecutive-none-skipped-none-repeated"],
+             "quick": {"entry": "VerifHarness_C09_ticks3", "flags": ["-unwind", "32"], "sample_paths": 1,
+                       "bounds": {"ticks": 3, "lateness_per_tick": "0s | 20s | 70s | 200s", "daemon_start_second": ":00 | :25 | :50"}},
+             "thorough": {"entry": "VerifHarness_C09_ticks4", "flags": ["-unwind", "32"], "sample_paths": 1, "bounds": {"ticks": 4}}},
             {"name": "C09.tick-2dags", "pkg": "./internal/scheduler", "replay": "R1t", "labels_unordered": True,
              "quick": {"entry": "VerifHarness_C09_tick2", "flags": ["-unwind", "32"], "sample_paths": 2,
                        "bounds": {"dags": 2, "start_schedules": "0..1 each", "stop_schedules": "0..1", "restart_schedules": "0..1", "ticks": 1, "D": 0}}},
@@ -211,7 +216,7 @@ PROPS = {    "C01": {
         "assumptions": ["cron.Schedule.Next replaced by its contract over a per-schedule match bit for the tick minute T: Next(T-1s) = T iff the schedule matches T, else a later minute (robfig/cron grammar x calendar is outside the claim)",
                         "instants are concrete representatives (tick minute fixed, latest run in 6 position classes); match bits, suspended flags and statuses are symbolic",
                         "fake client.Client: GetLatestStatus never errors (an unreadable latest status is C07/C08 territory)", "time.Local = UTC"],
-        "outside_claim": COMMON_OUTSIDE + ["cron 5-field grammar over the real calendar", "tick sequences (C09.ticks), daemon restarts, directory watching (C09.files): not built", "schedule forms (C09.forms) are covered by C13.build/schedule"],
+        "outside_claim": COMMON_OUTSIDE + ["cron 5-field grammar over the real calendar", "daemon restarts beyond the latest-run guard of C09.tick, directory watching (C09.files): not built", "schedule forms (C09.forms) are covered by C13.build/schedule"],
     },
     "C10": {
         "obligations": [
